@@ -1,7 +1,7 @@
 SPECIFICATION Spec
 CONSTANTS
   MaxProps = 2
-  ValueIdx = {1, 2, 3, 4, 5, 6, 7, 8, 9, 10, 11, 12, 13, 14}
+  ValueIdx = {1, 2, 3, 4, 5, 6, 7, 8, 9, 10, 11, 12, 13, 14, 15}
   AnnPerValue = 16
   Contexts = {0, 1, 2}
 INVARIANTS OneNodePerElement Emit
